@@ -1683,6 +1683,58 @@ func (p *pkgInfo) publishSites() [][2]string {
 	return out
 }
 
+// flagWriters: the functions that store to the completion flag (handshakeStatus / hsState) at all, whatever the value.
+// Once the handshake is complete nothing may change the flag again (other goroutines take the lock-free fast path on
+// it), so these must all be functions of the handshake itself.
+func (p *pkgInfo) flagWriters() []string {
+	var out []string
+	for _, f := range p.files {
+		for _, d := range f.Decls {
+			fd, ok := d.(*ast.FuncDecl)
+			if !ok || fd.Body == nil {
+				continue
+			}
+			writes := false
+			ast.Inspect(fd.Body, func(n ast.Node) bool {
+				c, ok := n.(*ast.CallExpr)
+				if !ok {
+					return true
+				}
+				sel, ok := c.Fun.(*ast.SelectorExpr)
+				if !ok || len(c.Args) == 0 {
+					return true
+				}
+				mentions := func(e ast.Expr, name string) bool {
+					found := false
+					ast.Inspect(e, func(n ast.Node) bool {
+						if id, ok := n.(*ast.Ident); ok && id.Name == name {
+							found = true
+						}
+						return true
+					})
+					return found
+				}
+				if x, ok := sel.X.(*ast.Ident); ok && x.Name == "atomic" && (strings.HasPrefix(sel.Sel.Name, "Store") || strings.HasPrefix(sel.Sel.Name, "Swap") || strings.HasPrefix(sel.Sel.Name, "CompareAndSwap") || strings.HasPrefix(sel.Sel.Name, "Add")) && mentions(c.Args[0], "handshakeStatus") {
+					writes = true
+				}
+				if (sel.Sel.Name == "Store" || sel.Sel.Name == "Swap" || sel.Sel.Name == "CompareAndSwap" || sel.Sel.Name == "Add") && mentions(sel.X, "hsState") {
+					writes = true
+				}
+				return true
+			})
+			if writes {
+				name := p.name + "." + fd.Name.Name
+				if fd.Recv != nil && len(fd.Recv.List) == 1 {
+					name = p.name + "." + recvTypeName(fd.Recv.List[0].Type) + "." + fd.Name.Name
+				}
+				out = append(out, name)
+			}
+		}
+	}
+	sort.Strings(out)
+	return out
+}
+
 // findHandshakeTargets: methods assigned to a field named handshakeFn anywhere in the package
 func (p *pkgInfo) findHandshakeTargets() {
 	seen := map[*fnode]bool{}
@@ -1762,7 +1814,7 @@ func main() {
 	}
 	nwarn := 0
 	var names []string
-	var pubs []string
+	var pubs, writers []string
 	for _, s := range specs {
 		p, err := loadPkg(*repo, s.pkg, s.roots, imp)
 		if err != nil {
@@ -1795,6 +1847,11 @@ func main() {
 				items = append(items, fmt.Sprintf("(%s, %s)", coqString(ps[0]), ps[1]))
 			}
 			pubs = append(pubs, fmt.Sprintf("(%s, [%s])", coqString(s.pkg), strings.Join(items, "; ")))
+			var ws []string
+			for _, w := range p.flagWriters() {
+				ws = append(ws, coqString(w))
+			}
+			writers = append(writers, fmt.Sprintf("(%s, [%s])", coqString(s.pkg), strings.Join(ws, "; ")))
 		}
 		for _, fn := range p.order {
 			nwarn += len(fn.warn)
@@ -1808,6 +1865,7 @@ func main() {
 	}
 	fmt.Fprintf(&sb, "\nDefinition skeletons : list skeleton := [%s].\n", strings.Join(names, "; "))
 	fmt.Fprintf(&sb, "\n(* per package: the functions that publish the completion of the handshake, with the number of uses of the\n   connection in the statements after the publishing store *)\nDefinition publish_sites : list (string * list (string * N)) :=\n  [%s].\n", strings.Join(pubs, ";\n   "))
+	fmt.Fprintf(&sb, "\n(* per package: every function that stores to the completion flag, whatever the value *)\nDefinition flag_writers : list (string * list string) :=\n  [%s].\n", strings.Join(writers, ";\n   "))
 	for _, wn := range imp.warns {
 		nwarn++
 		if *verbose {
